@@ -27,6 +27,8 @@ pub enum Case {
     /// annotation accessors: type 0..3, the fields set (by index into that type's field list)
     Annotations { kind: u8, fields: Vec<usize> },
     ForeignArtifactType,
+    /// a plain OCI image manifest without any artifactType that carries a layer with an OMMX media type
+    NoArtifactType,
     /// an archive written by another conforming implementation (ocipkg directly, published media types)
     ForeignLayers { layers: Vec<LayerRep> },
 }
@@ -362,6 +364,46 @@ pub fn check_case(l: &mut Local, case: &Case) {
         Case::Sequence { layers } => check_sequence(l, case, layers),
         Case::Annotations { kind, fields } => check_annotations(l, case, *kind, fields),
         Case::ForeignLayers { layers } => check_foreign_layers(l, case, layers, "foreign-archive"),
+        Case::NoArtifactType => {
+            use ocipkg::image::ImageBuilder;
+            use ocipkg::oci_spec::image::{DescriptorBuilder, ImageManifestBuilder};
+            l.transitions += 1;
+            l.nontrivial += 1;
+            let path = scratch_file();
+            let r = sdk(|| -> Result<(bool, usize), String> {
+                let mut layout = ocipkg::image::OciArchiveBuilder::new_unnamed(path.clone()).map_err(|e| format!("{e:#}"))?;
+                let config = layout.add_empty_json().map_err(|e| format!("{e:#}"))?;
+                let blob = instance_msg(1).encode_to_vec();
+                let (digest, size) = layout.add_blob(&blob).map_err(|e| format!("{e:#}"))?;
+                let layer = DescriptorBuilder::default()
+                    .media_type(media_type_of(0))
+                    .digest(digest.to_string())
+                    .size(size)
+                    .annotations(HashMap::new())
+                    .build()
+                    .map_err(|e| format!("{e:#}"))?;
+                let manifest = ImageManifestBuilder::default().schema_version(2_u32).config(config).layers(vec![layer]).build().map_err(|e| format!("{e:#}"))?;
+                layout.build(manifest).map_err(|e| format!("{e:#}"))?;
+                let mut a = Artifact::from_oci_archive(&path).map_err(|e| format!("{e:#}"))?;
+                let ok = a.get_manifest().is_ok();
+                let listed = a.get_layer_descriptors(&media_type_of(0)).map(|d| d.len()).unwrap_or(0);
+                Ok((ok, listed))
+            });
+            let _ = std::fs::remove_file(&path);
+            match r {
+                Err(p) => l.violation("no-artifact-type/panic", || json!(case), p),
+                Ok(Err(e)) => panic!("ENGINE: cannot build a plain OCI image: {e}"),
+                Ok(Ok((ok, listed))) => {
+                    if ok || listed > 0 {
+                        l.violation(
+                            "no-artifact-type/manifest-accepted",
+                            || json!(case),
+                            format!("an image whose manifest has no artifactType was treated as an OMMX artifact (get_manifest ok = {ok}, {listed} layers listed)"),
+                        );
+                    }
+                }
+            }
+        }
         Case::ForeignArtifactType => {
             l.transitions += 1;
             l.nontrivial += 1;
@@ -530,10 +572,21 @@ fn check_sequence(l: &mut Local, case: &Case, layers: &[LayerRep]) {
                 // shares it; which one a digest-only lookup returns is not fixed by the property
             }
         }
-        // 4. unknown digest
-        let unknown = digest_of(0xee);
-        if a.get_layer(&unknown).is_ok() || a.get_instance(&unknown).is_ok() || a.get_parametric_instance(&unknown).is_ok() || a.get_solution(&unknown).is_ok() || a.get_sample_set(&unknown).is_ok() {
-            bad.push(("unknown-digest-accepted".into(), "a getter succeeded for a digest that is not in the archive".into()));
+        // 4. unknown digests: other hex; the hex of a stored layer under another algorithm
+        let mut unknowns = vec![digest_of(0xee)];
+        for r in reference.iter().take(2) {
+            let hex = r.digest.trim_start_matches("sha256:");
+            for alg in ["sha512", "blake3"] {
+                if let Ok(d) = Digest::new(&format!("{alg}:{hex}")) {
+                    unknowns.push(d);
+                }
+            }
+        }
+        for unknown in &unknowns {
+            if a.get_layer(unknown).is_ok() || a.get_instance(unknown).is_ok() || a.get_parametric_instance(unknown).is_ok() || a.get_solution(unknown).is_ok() || a.get_sample_set(unknown).is_ok() {
+                bad.push(("unknown-digest-accepted".into(), format!("a getter succeeded for the digest {unknown}, which is not in the archive")));
+                break;
+            }
         }
         // 5. per-kind descriptor lists are the sub-sequences
         for k in 0u8..4 {
@@ -729,6 +782,7 @@ pub fn run(ctx: &Ctx) -> Finish {
         });
     }
     ctx.seq(|l| check_case(l, &Case::ForeignArtifactType));
+    ctx.seq(|l| check_case(l, &Case::NoArtifactType));
     // archives written by another conforming implementation: every kind alone and all pairs of kinds
     ctx.seq(|l| {
         for a in 0..4u8 {
